@@ -190,6 +190,9 @@ def gen_doc(rng, nobj=12, features=None):
             obj["var"]["factor"], obj["var"]["unit"], obj["var"]["desc"] = [1, 1], "", ""
             if kind == "compactnamed":
                 obj["namelist"] = [text(rng, f"n{uniq}_{k}") for k in range(1, obj["compact"] + 1)]
+                if "." not in name and uniq % 3 == 0:
+                    # the first entry spelled like the array itself (array "Temperature": 1=Temperature, ...)
+                    obj["namelist"][0] = name
         doc["objs"].append(obj)
     doc["objs"].sort(key=lambda o: o["idx"])
     doc["indexes"] = sorted([o["idx"] for o in doc["objs"]] + list(doc["dummies"]))
@@ -358,7 +361,7 @@ def proj_od(od):
                 # members an array serves on demand (CompactSubObj expansion)
                 for s in range(1, 25):
                     try:
-                        rec["dyn"].append(proj_var(od, None, o[s]))
+                        rec["dyn"].append(proj_var(od, o if s in o.subindices else None, o[s]))
                     except Exception:  # noqa
                         break
         objs[idx] = rec
